@@ -36,7 +36,7 @@ RotOrder(i) == LET S == {InitTable[i].rot[k] : k \in 1..Len(InitTable[i].rot)}
 
 DInit ==
     /\ init \in Inits
-    /\ live = [lines |-> LiveLines(init), partial |-> InitTable[init].partial, ptok |-> 50]
+    /\ live = [lines |-> LiveLines(init), partial |-> InitTable[init].partial, ptok |-> 51]
     /\ exists = InitTable[init].haslive
     /\ offset = SumSz(LiveLines(init))
     /\ lastSz = IF FixLastSz THEN SumSz(LiveLines(init)) ELSE 0
@@ -99,7 +99,7 @@ Complete ==
 \* rename audit.log -> audit.log.1 (Rename event), create an empty audit.log (Create event)
 Rotate ==
     /\ exists
-    /\ live' = [lines |-> <<>>, partial |-> 0, ptok |-> 50]
+    /\ live' = [lines |-> <<>>, partial |-> 0, ptok |-> 51]
     /\ offset' = 0
     /\ Record([op |-> "rotate"])
     /\ UNCHANGED <<exists, lastSz, delivered, ideal, ntok, init>>
@@ -107,7 +107,7 @@ Rotate ==
 \* truncation to zero length (a Write event)
 Truncate ==
     /\ exists
-    /\ live' = [lines |-> <<>>, partial |-> 0, ptok |-> 50]
+    /\ live' = [lines |-> <<>>, partial |-> 0, ptok |-> 51]
     /\ OnWrite(live')
     /\ ideal' = ideal
     /\ Record([op |-> "truncate"])
